@@ -292,13 +292,12 @@ func (gb *gcpBalancer) UpdateClientConnState(ccs balancer.ClientConnState) error
 	if len(gb.scRefs) == 0 {
 		// gb.mu is already held: newSubConn() would lock it again.
 		gb.addSubConn()
-		return nil
-	}
-
-	for _, scRef := range gb.scRefs {
-		// TODO(weiranf): update streams count when new addrs resolved?
-		scRef.subConn.UpdateAddresses(addrs)
-		scRef.subConn.Connect()
+	} else {
+		for _, scRef := range gb.scRefs {
+			// TODO(weiranf): update streams count when new addrs resolved?
+			scRef.subConn.UpdateAddresses(addrs)
+			scRef.subConn.Connect()
+		}
 	}
 	// Replacement subconns of refreshes in progress will join the pool: keep them up to date too.
 	for sc := range gb.refreshingScRefs {
